@@ -401,6 +401,8 @@ def run_c04(ctx):
         ctx.tlc(res, 'Runs/witness/' + wit)
         if res.violation != ('invariant', wit):
             raise tlc.MachineryError('witness %s not reachable in Runs.tla' % wit)
+    import conf_decide
+    conf_decide.run(ctx, wd, 'C04')
     # spec -> code
     traces3 = simulate_and_replay(ctx, wd, 3, 'MC_MixedDirs', ctx.pick(120, 1200), 60, {'ok', 'fail', 'raise'}, 4, 3)
     judge(ctx, wd, traces3, 3, 'sim3')
